@@ -15,7 +15,8 @@ oracle address, window comparisons `maxHeight > set.Height` / half-open batch ra
 theorem slashing_code_facts : SlashCodeOk := by decide
 
 /-- `BondedOracle` checks proposal membership, existing record, bridger index, external index, lower and upper stake bound
-before any write; `EditBridger` checks the bridger index before any write; `AddDelegate` checks proposal membership, that
+before any write; `EditBridger` checks the bridger index before any write; the re-activation path of `AddDelegate` sets
+Online, resets StartHeight (for an offline oracle) and clears SlashTimes; `AddDelegate` checks proposal membership, that
 the top-up covers an outstanding penalty, and both stake bounds before any write -/
 theorem guard_code_facts : GuardCodeOk := by decide
 
@@ -316,6 +317,47 @@ theorem late_joiner_not_liable (s : State) (h : Nat) (o : Oracle)
   · have := hos x hx; omega
   · have := hbt x hx; omega
   · have := hcl x hx; omega
+
+/-- **re-joining resets liability** (over the REGENERATED re-activation path of `AddDelegate`, `guard_code_facts`): a
+slashed / removed oracle that comes back through a successful `AddDelegate` is online again, its penalty counter is
+cleared, and its start height is the height of the re-join — not the height of its original bond -/
+theorem rejoin_resets_liability (s : State) (o amt : Nat) (r : Oracle) (hr : Store.get s.oracles o = some r)
+    (hoff : r.online = false) (h : (addDelegate s o amt).2 = .ok) :
+    ∃ r', Store.get (addDelegate s o amt).1.oracles o = some r' ∧ r'.online = true ∧ r'.startHeight = s.height ∧
+      r'.slashTimes = 0 ∧ r'.ext = r.ext := by
+  have hre := reactivate_eq guard_code_facts
+  have key : (addDelegate s o amt).2 = .ok → Store.get (addDelegate s o amt).1.oracles o =
+      some (reactivate s.height { r with amount := r.amount + (amt - slashAmount s.p r) }) := by
+    unfold addDelegate
+    split
+    · intro h; cases h
+    · rw [hr]
+      simp only
+      split
+      · intro h; cases h
+      · split
+        · intro h; cases h
+        · split
+          · intro h; cases h
+          · split
+            · intro h; cases h
+            · split
+              · intro h; cases h
+              · intro _
+                simp only [refreshPower]
+                rw [get_set]; simp
+  refine ⟨_, key h, ?_, ?_, ?_, ?_⟩ <;> simp [hre, hoff]
+
+/-- … hence it is never penalised for an oracle set, batch or bridge call created before it re-joined, e.g. the oracle set
+the chain emitted in the block of its own slash -/
+theorem rejoined_not_liable_for_earlier_objects (s : State) (o amt : Nat) (r : Oracle)
+    (hr : Store.get s.oracles o = some r) (hoff : r.online = false) (h : (addDelegate s o amt).2 = .ok)
+    (t : State) (hh : Nat)
+    (hos : ∀ x ∈ t.osets, x.height < s.height) (hbt : ∀ x ∈ t.batches, x.height < s.height)
+    (hcl : ∀ x ∈ t.calls, x.height < s.height) :
+    ∃ r', Store.get (addDelegate s o amt).1.oracles o = some r' ∧ ¬ Missed t hh r' := by
+  obtain ⟨r', h1, _, h3, _, _⟩ := rejoin_resets_liability s o amt r hr hoff h
+  exact ⟨r', h1, late_joiner_not_liable t hh r' (by rw [h3]; exact hos) (by rw [h3]; exact hbt) (by rw [h3]; exact hcl)⟩
 
 /-- the end-blocker touches neither stake amounts nor balances nor delegations: slashing is only `online := false` and
 `slashTimes + 1` (the penalty is charged later, by `AddDelegate` or `UnbondedOracle`) -/
